@@ -4,7 +4,7 @@ every loader in the repository's tests does (nested Savables are saved with defa
 from plumpy import loaders
 
 
-KNOWN_PREFIXES = ('tag!', 'other!')
+KNOWN_PREFIXES = ('tag!', 'other!', 'arg!')
 
 
 class TagLoader(loaders.DefaultObjectLoader):
@@ -40,3 +40,17 @@ class OtherLoader(TagLoader):
     loads = 0
     owned_loads = 0
     identifies = 0
+
+
+class ArgLoader(TagLoader):
+    """A loader that is configured through its constructor (a registry): it cannot be instantiated without arguments,
+    so it only works where it is handed over in the context."""
+
+    PREFIX = 'arg!'
+    loads = 0
+    owned_loads = 0
+    identifies = 0
+
+    def __init__(self, registry):
+        super().__init__()
+        self.registry = registry
